@@ -59,7 +59,7 @@ Section Buf.
     exists rx2,
       (if negb (contig =? 0) then rb_enqueue_unallocated rx1 contig else Ok rx1) = Ok rx2 /\
       buf_inv have' c rx2 a' /\
-      rb_len rx2 = rb_len rx + contig /\ rb_cap rx2 = rb_cap rx /\
+      rb_len rx2 = rb_len rx + contig /\ (rb_cap rx2 = rb_cap rx /\ rb_read_at rx2 = rb_read_at rx) /\
       (off = 0 -> l_len payload <= contig) /\
       (0 < off -> a = [] -> contig = 0 /\ a' <> []) /\
       (off = 0 -> a = [] -> contig = l_len payload /\ a' = []) /\
@@ -119,15 +119,16 @@ Section Buf.
     assert (Hrx2 : exists rx2,
               (if negb (contig =? 0) then rb_enqueue_unallocated rx1 contig else Ok rx1) = Ok rx2 /\
               rb_wf rx2 /\ rb_cap rx2 = rb_cap rx /\ rb_len rx2 = rb_len rx + contig /\
+              rb_read_at rx2 = rb_read_at rx /\
               forall i, rb_cell rx2 i = rb_cell rx1 i).
     { destruct (Z.eqb_spec contig 0) as [->|Hne]; cbn [negb].
       - exists rx1. split; [reflexivity|]. split; [exact Hwf1|]. split; [exact Hcap1|].
-        split; [lia|]. reflexivity.
+        split; [lia|]. split; [exact Hra1 | reflexivity].
       - destruct (rb_enqueue_unallocated_spec rx1 contig Hwf1 ltac:(unfold rb_window; lia))
-          as (rx2 & He & Hwf2 & Hc2 & Hl2 & _ & Hcell2).
+          as (rx2 & He & Hwf2 & Hc2 & Hl2 & Hr2 & Hcell2).
         exists rx2. split; [exact He|]. split; [exact Hwf2|]. split; [lia|].
-        split; [lia|]. exact Hcell2. }
-    destruct Hrx2 as (rx2 & He & Hwf2 & Hc2 & Hl2 & Hcell2).
+        split; [lia|]. split; [congruence | exact Hcell2]. }
+    destruct Hrx2 as (rx2 & He & Hwf2 & Hc2 & Hl2 & Hra2 & Hcell2).
     exists rx2. split; [exact He|].
     (* which offsets are tracked afterwards *)
     assert (Ha' : forall o, tracked a' o -> tracked u (o + contig) /\ 0 <= o).
@@ -164,7 +165,7 @@ Section Buf.
           specialize (Hb f Hf). lia.
         + intros o Ho. destruct (Ha' o Ho) as (Htu & Ho0).
           destruct (Hu_all (o + contig) Htu) as (_ & _ & _ & Hb). specialize (Hb f Hf). lia. }
-    split; [exact Hl2|]. split; [exact Hc2|].
+    split; [exact Hl2|]. split; [split; [exact Hc2 | exact Hra2]|].
     (* shape of contig *)
     assert (Hfront : off = 0 -> size <= contig).
     { intros ->. destruct (Z_lt_le_dec contig size) as [Hlt|Hge]; [|exact Hge]. exfalso.
